@@ -576,6 +576,9 @@ func (st deriveStep) String() string {
 	case 2:
 		return "w:" + vh.B01(st.w)
 	case 3:
+		if st.item == nil {
+			return "item:N:-" // WithItem(nil): documented as the empty body
+		}
 		if !st.itemOK {
 			return "item:E:-"
 		}
@@ -614,9 +617,16 @@ func randStep(c *vh.Ctx, kind int) deriveStep {
 	case 2:
 		st.w = r.Intn(2) == 0
 	case 3:
-		if r.Intn(2) == 0 {
+		switch r.Intn(8) {
+		case 0, 1:
 			st.item = fr.ErrItem(r)
-		} else {
+		case 2, 3:
+			st.item, st.itemOK = nil, true // WithItem(nil)
+		case 4:
+			st.item, st.itemOK = secs2.NewEmptyItem(), true
+		case 5:
+			st.item, st.itemOK = secs2.L(), true
+		default:
 			st.item, st.itemOK = fr.RandItem(r, 2), true
 		}
 	case 4:
@@ -670,8 +680,8 @@ func runDeriveSteps(c *vh.Ctx, base *hsms.DataMessage, steps []deriveStep, tag s
 			w, stampsOnly = st.w, false
 		case 3:
 			itemOK, stampsOnly = st.itemOK, false
-			body = nil
-			if st.itemOK {
+			body = nil // the LAST item override decides the body; nil and the empty item mean no body
+			if st.itemOK && st.item != nil {
 				body = st.item.ToBytes()
 			}
 		case 4:
@@ -710,8 +720,11 @@ func runDeriveSteps(c *vh.Ctx, base *hsms.DataMessage, steps []deriveStep, tag s
 		return
 	}
 	after := m.ToBytes()
-	if m.Stream() != stream || m.Function() != fn || m.WaitBit() != w || m.SessionID() != sid || m.SystemBytes() != sb || !bytes.Equal(m.AppendBodyTo(nil), body) {
-		c.Fail(fmt.Sprintf("Derive()...Build(): the built message does not carry the requested stream %d / function %d / W %v / session %d / system bytes %v / body", stream, fn, w, sid, sb), line)
+	if got := m.AppendBodyTo(nil); !bytes.Equal(got, body) || m.BodyLen() != len(body) || binary.BigEndian.Uint32(after[:4]) != uint32(10+len(body)) {
+		c.Fail(fmt.Sprintf("Derive()...Build(): body of the built message (%d bytes) is not the encoding of the last item override (nil / empty item = no body), or the source's body when the item was never overridden (%d bytes expected)", len(got), len(body)), line)
+	}
+	if m.Stream() != stream || m.Function() != fn || m.WaitBit() != w || m.SessionID() != sid || m.SystemBytes() != sb {
+		c.Fail(fmt.Sprintf("Derive()...Build(): the built message does not carry the requested stream %d / function %d / W %v / session %d / system bytes %v", stream, fn, w, sid, sb), line)
 	}
 	eh := e37Header(dataIn{stream: stream, fn: fn, w: w, sid: sid, sb: sb})
 	if !bytes.Equal(after[4:14], eh[:]) {
@@ -815,6 +828,37 @@ func deriveCorpus(c *vh.Ctx) {
 					runDeriveSteps(c, mk(), steps, tag)
 					// ... and repaired by a later call of the same kind
 					runDeriveSteps(c, mk(), append(append([]deriveStep(nil), steps...), ok(bd.kind)), tag)
+				}
+			}
+			// item overrides at every position of a chain, from a source with a NON-EMPTY body:
+			// WithItem(nil) / the empty item (header-only frame), the empty list, another item;
+			// as the last override, overridden again later, before and after the other With* steps
+			items := []deriveStep{
+				{kind: 3, item: nil, itemOK: true},
+				{kind: 3, item: secs2.NewEmptyItem(), itemOK: true},
+				{kind: 3, item: secs2.L(), itemOK: true},
+				{kind: 3, item: secs2.A("other"), itemOK: true},
+			}
+			for _, it := range items {
+				runDeriveSteps(c, mk(), []deriveStep{it}, tag)
+				for pos := 0; pos < 4; pos++ {
+					steps := make([]deriveStep, 0, 6)
+					for i := 0; i < 4; i++ {
+						if i == pos {
+							steps = append(steps, it)
+						} else {
+							st := ok(fillers[i])
+							if st.kind == 2 {
+								st.w = w
+							}
+							steps = append(steps, st)
+						}
+					}
+					runDeriveSteps(c, mk(), steps, tag)
+					for _, later := range items {
+						runDeriveSteps(c, mk(), append(append([]deriveStep(nil), steps...), later), tag)
+						runDeriveSteps(c, mk(), append(append([]deriveStep(nil), steps...), ok(0), later, ok(4)), tag)
+					}
 				}
 			}
 			// W-bit set on an even function through WithWaitBit / WithFunction in both orders
